@@ -347,6 +347,10 @@ func c10Check(c c10Case) fw.Outcome {
 // genC10Leaf: leaf objects on a small lattice, valid enough for Parse when wanted.
 func genC10Leaf(t *rapid.T, parseable bool) objSpec {
 	lp := func(label string) fpt {
+		if rapid.IntRange(0, 15).Draw(t, label+"_far") == 0 {
+			// outside the lon/lat range (nothing forbids it without RequireValid): beyond any "whole world" rectangle
+			return fpt{F(rapid.SampledFrom([]int{250, -300, 20}).Draw(t, label+"fx")), F(rapid.SampledFrom([]int{20, 95, -120}).Draw(t, label+"fy"))}
+		}
 		if rapid.IntRange(0, 7).Draw(t, label+"_o") == 0 {
 			// at or next to the origin, where the zero rectangle of an empty or not yet seeded box lives
 			return fpt{F(rapid.IntRange(0, 1).Draw(t, label+"ox")), F(rapid.IntRange(0, 1).Draw(t, label+"oy"))}
@@ -479,6 +483,25 @@ func c10Gen(t *rapid.T) c10Case {
 	default:
 		c.Probe = genC10Leaf(t, false)
 	}
+	if rapid.IntRange(0, 11).Draw(t, "onespot") == 0 {
+		// every non-empty child at one position P, an empty child among them, and the probe is the point P itself:
+		// the collection's box equals the probe's, yet a collection with an empty child is within nothing
+		P := fpt{F(rapid.IntRange(0, 11).Draw(t, "spx")), F(rapid.IntRange(0, 11).Draw(t, "spy"))}
+		kids := []objSpec{{Kind: "Point", Pts: []fpt{P}}}
+		for i := rapid.IntRange(0, 2).Draw(t, "spn"); i > 0; i-- {
+			kids = append(kids, objSpec{Kind: "Point", Pts: []fpt{P}})
+		}
+		if rapid.IntRange(0, 3).Draw(t, "spempty") > 0 {
+			e := objSpec{Kind: rapid.SampledFrom([]string{"MultiPoint", "GeometryCollection"}).Draw(t, "spek")}
+			at := rapid.IntRange(0, len(kids)).Draw(t, "spat")
+			kids = append(kids[:at], append([]objSpec{e}, kids[at:]...)...)
+		}
+		c.Coll = objSpec{Kind: "GeometryCollection", Children: kids}
+		c.Probe = objSpec{Kind: rapid.SampledFrom([]string{"Point", "SimplePoint"}).Draw(t, "spk"), Pts: []fpt{P}}
+		c.Query = [4]int{int(P.X), int(P.Y), int(P.X), int(P.Y)}
+		c.Stop = rapid.IntRange(0, 2).Draw(t, "spstop")
+		return c
+	}
 	if rapid.IntRange(0, 5).Draw(t, "circleprobe") == 0 {
 		// X may be a Circle: "within X iff non-empty and every child is within X" goes through Circle.Contains
 		c.Probe = objSpec{Kind: "Circle", Pts: []fpt{{F(rapid.IntRange(3, 11).Draw(t, "ccx")), F(rapid.IntRange(3, 11).Draw(t, "ccy"))}},
@@ -486,7 +509,9 @@ func c10Gen(t *rapid.T) c10Case {
 	}
 	x0, y0 := rapid.IntRange(2, 12).Draw(t, "qx0"), rapid.IntRange(2, 12).Draw(t, "qy0")
 	c.Query = [4]int{x0, y0, x0 + rapid.IntRange(0, 5).Draw(t, "qw"), y0 + rapid.IntRange(0, 5).Draw(t, "qh")}
-	switch rapid.IntRange(0, 5).Draw(t, "qmode") {
+	switch rapid.IntRange(0, 6).Draw(t, "qmode") {
+	case 2: // the whole lon/lat range, exactly or generously: children may still lie outside it
+		c.Query = rapid.SampledFrom([][4]int{{-180, -90, 180, 90}, {-181, -91, 181, 91}, {-180, -90, 400, 90}}).Draw(t, "qworld")
 	case 0: // everything, the origin included: an empty child reports the zero rectangle and must still not be found
 		c.Query = [4]int{-100, -100, 100, 100}
 	case 1: // a box at the origin reaching into the data
